@@ -455,7 +455,7 @@ def lib_integrand(name, c, npar):
 SHARED = {}     # function objects shared by the calls of one history case: {'quad': (npar, constants, func), 'root': (constants, func)}
 
 
-KNOBS = {'amp': 1.0, 'freq': None, 'wvar': None, 'hard': False}     # set by the option / scale kinds for the duration of one case
+KNOBS = {'amp': 1.0, 'freq': None, 'wvar': None, 'hard': False, 'one_slot': False, 'narrow': None, 'slot_used': None}     # set by the option / scale kinds for the duration of one case
 
 
 def amplitude_slots(name, npar):
@@ -466,9 +466,15 @@ def integral_problem(rng, name, half_line=False):
     npar, p, a, b, c = _integral_problem(rng, name, half_line)
     if KNOBS['freq'] is not None and name == 'trig':
         p[1] = KNOBS['freq']
-    for k_ in amplitude_slots(name, npar):
-        if k_ < npar:
-            p[k_] *= KNOBS['amp']
+    slots = sorted(k_ for k_ in amplitude_slots(name, npar) if k_ < npar)
+    if KNOBS.get('one_slot') and slots:
+        slots = [slots[int(rng.integers(0, len(slots)))]]          # tiny in ONE slot only, the others O(1)
+        KNOBS['slot_used'] = slots[0]
+    for k_ in slots:
+        p[k_] *= KNOBS['amp']
+    if KNOBS.get('narrow') is not None:
+        a = a if abs(a) > 0.05 else 0.37
+        b = a * (1.0 + KNOBS['narrow'])
     return npar, p, a, b, c
 
 
@@ -546,7 +552,7 @@ def case_quad(ctx, rng, name, psel, a_obs, b_obs, layout, half_line=False, weigh
         if a > b:
             a, b = b, a
     ops = Operands(rng, ctx.tier, layout)
-    amps = amplitude_slots(name, npar)
+    amps = amplitude_slots(name, npar) if not KNOBS.get('one_slot') else {KNOBS.get('slot_used')}
     pin = [ops.obs(v, max(abs(v), 0.3 * (KNOBS['amp'] if k_ in amps else 1.0))) if m else v for k_, (v, m) in enumerate(zip(p, mask))]
     ain = ops.obs(a, 1.0) if a_obs else a
     bin_ = ops.obs(b, 1.0) if b_obs else b
@@ -660,6 +666,8 @@ def case_quad(ctx, rng, name, psel, a_obs, b_obs, layout, half_line=False, weigh
             ctx.equal(got[2].get('neval'), direct[2].get('neval'), mech + ':infodict-differs-from-scipy', what)
         exact0 = integral(pv, av, bv, c) if weight is None else ri.weighted_integral(name, pv, av, bv, c, weight, wvar)
         vrt, _, eab = quadrature_contract(kw, math.isinf(bv))
+        if not math.isinf(bv) and av != bv:
+            vrt += 20 * np.finfo(float).eps * max(abs(av), abs(bv)) / abs(bv - av)
         ctx.close(got[0], exact0, mech + ':value-differs-from-antiderivative', what, rtol=vrt, atol=eab, scale=abs_integral(f, pv, av, bv, c))
         ctx.nontrivial.add(digest('plain', name, pv, av, bv, sorted(kw)))
         return
@@ -694,6 +702,10 @@ def case_quad(ctx, rng, name, psel, a_obs, b_obs, layout, half_line=False, weigh
     gabs = [abs(g_) for g_ in grads]
     t = ctx.trial()
     vrt, grt, eab = quadrature_contract(kw, math.isinf(bv))
+    if not math.isinf(bv) and av != bv:
+        # conditioning with respect to the limits: the width b - a (and every node a + t (b - a)) carries the rounding of a and b
+        kappa_lim = 20 * np.finfo(float).eps * max(abs(av), abs(bv)) / abs(bv - av)
+        vrt, grt = vrt + kappa_lim, grt + kappa_lim
     if eab:
         # absolute part of the requested accuracy: on the value and on every derivative integral
         iscale = iscale + eab / vrt
@@ -848,13 +860,13 @@ def case_function_history(ctx, rng, what, name):
 
 def quadrature_contract(kw, infinite):
     """(rtol_value, rtol_gradient, epsabs) that the numerical quadrature can be held to.
-    Finite ranges of the analytic integrands used here: the 21-point Gauss-Kronrod rule converges to rounding, 1e-9 / 1e-8 of
-    int|f| are kept.  Infinite ranges (QAGI): the routine is only accurate to what the options request, max(epsabs, epsrel |I|)
+    Finite ranges of the analytic integrands used here: the 21-point Gauss-Kronrod rule converges to rounding, 1e-12 / 1e-11 of
+    int|f|.  Infinite ranges (QAGI): the routine is only accurate to what the options request, max(epsabs, epsrel |I|)
     (default 1.49e-8 each), and its own error estimate is not a bound (observed: reported 1.2e-12, actual 2.4e-9 = 2.2e-8 |I| for
     p0 exp(-p1 x) on [a, inf)); the tolerance is 10 x the requested accuracy.  The same contract is used for the deliberately
     hard (high-frequency) integrands of the option rows on finite ranges."""
     if not infinite and not KNOBS['hard']:
-        return 1e-9, 1e-8, 0.0
+        return 1e-12, 1e-11, 0.0        # pass 4: was 1e-9 / 1e-8; Gauss-Kronrod on these analytic integrands converges to rounding
     eabs = float(kw.get('epsabs', 1.49e-8))
     erel = float(kw.get('epsrel', 1.49e-8))
     return max(1e-9, 10 * erel), max(1e-8, 10 * erel), 10 * eabs
@@ -887,7 +899,7 @@ def case_quad_option(ctx, rng, row):
         a_obs, b_obs = bool(rng.integers(0, 2)), bool(rng.integers(0, 2))
         case_quad(ctx, rng, fam, psel, a_obs, b_obs, str(rng.choice(['same', 'different', 'covariance'])), half_line=half, weight=w, force_kw=kwf)
     finally:
-        KNOBS.update(amp=1.0, freq=None, wvar=None, hard=False)
+        KNOBS.update(amp=1.0, freq=None, wvar=None, hard=False, one_slot=False, narrow=None, slot_used=None)
 
 
 def case_quad_scale(ctx, rng, fam):
@@ -898,7 +910,24 @@ def case_quad_scale(ctx, rng, fam):
         ctx.count('scale_sweep_cases')
         case_quad(ctx, rng, fam, str(rng.choice(PSEL)), bool(rng.integers(0, 2)), bool(rng.integers(0, 2)), str(rng.choice(['same', 'different', 'covariance'])))
     finally:
-        KNOBS.update(amp=1.0, freq=None, wvar=None, hard=False)
+        KNOBS.update(amp=1.0, freq=None, wvar=None, hard=False, one_slot=False, narrow=None, slot_used=None)
+
+
+def case_quad_near(ctx, rng, fam, which):
+    """near, not at, special values: limits that differ by 1e-9 .. 1e-4 relative (different objects); an amplitude tiny in one slot only"""
+    try:
+        if which == 'narrow':
+            KNOBS['narrow'] = float(rng.choice([-1, 1])) * float(10.0 ** rng.integers(-9, -3))
+            a_obs, b_obs = True, True
+        else:
+            KNOBS['amp'] = float(10.0 ** rng.integers(-12, -5))
+            KNOBS['one_slot'] = True
+            a_obs, b_obs = bool(rng.integers(0, 2)), bool(rng.integers(0, 2))
+        ctx.cell('quad_near', fam, which)
+        ctx.count('near_special_cases')
+        case_quad(ctx, rng, fam, 'all', a_obs, b_obs, str(rng.choice(['same', 'different', 'covariance'])))
+    finally:
+        KNOBS.update(amp=1.0, freq=None, wvar=None, hard=False, one_slot=False, narrow=None, slot_used=None)
 
 
 ROOT_SCALE = [None]
@@ -994,7 +1023,7 @@ def teardown(ctx):
 
 
 def plan(tier):
-    m = 1 if tier == 'quick' else 50
+    m = 1 if tier == 'quick' else 30
     p = []
     for name in ri.ROOTS:
         for lay in LAYOUTS:
@@ -1031,6 +1060,8 @@ def plan(tier):
         p.append(('quadopt:%s' % row, 24 * m))
     for fam in ri.INTEGRANDS:
         p.append(('quadscale:%s' % fam, 20 * m))
+        p.append(('quadnear:%s:narrow' % fam, 10 * m))
+        p.append(('quadnear:%s:one_slot' % fam, 10 * m))
     # (exp(a x) - d with d scaled over decades moves the root far from any O(1) guess: solver convergence, not error propagation)
     for name in ('power', 'vec_quadratic', 'vec_ratio_exp', 'vec_linear'):
         p.append(('rootscale:%s' % name, 14 * m))
@@ -1064,6 +1095,8 @@ def run_case(ctx, kind, idx, rng):
         case_quad(ctx, rng, k[1], str(rng.choice(PSEL)), bool(rng.integers(0, 2)), bool(rng.integers(0, 2)), str(rng.choice(['same', 'different', 'covariance'])), spectator=k[2])
     elif k[0] == 'quadopt':
         case_quad_option(ctx, rng, k[1])
+    elif k[0] == 'quadnear':
+        case_quad_near(ctx, rng, k[1], k[2])
     elif k[0] == 'quadscale':
         case_quad_scale(ctx, rng, k[1])
     elif k[0] == 'rootscale':
